@@ -62,7 +62,8 @@ pub struct BodyPlan {
     /// `via_text_reader` only: read through `text_reader_with(this charset)` instead of `text_reader()`
     pub text_charset: Option<&'static encoding_rs::Encoding>,
     /// which `std::io::Read` entry point the size schedule goes through: 0 = `read`, 1 = `read_vectored`
-    /// (two slices), 2 = `take(n).read_to_end()` (waits for n bytes: not for the "never waits" checks)
+    /// (two slices), 2 = `take(n).read_to_end()` (waits for n bytes: not for the "never waits" checks),
+    /// 3 = two reads of the schedule, then `read_to_end` / `read_to_string` for the rest
     pub read_api: u8,
     /// description of the injected damage, if any
     pub damage: String,
@@ -266,6 +267,7 @@ pub fn gen_plan(g: &mut G, max_payload: usize) -> BodyPlan {
         read_api: match (len * 7 + nsegs) % 6 {
             0 => 1,
             1 => 2,
+            2 => 3,
             _ => 0,
         },
         damage: String::new(),
@@ -374,6 +376,7 @@ impl BodyPlan {
             match (&self.read_mode, self.read_api) {
                 (ReadMode::Sizes(..), 1) => "+vectored",
                 (ReadMode::Sizes(..), 2) => "+take_to_end",
+                (ReadMode::Sizes(..), 3) => "+then_read_to_end",
                 _ => "",
             },
             self.garbage > 0,
@@ -414,7 +417,7 @@ impl BodyPlan {
             segs.join(","),
             self.end,
             self.read_mode,
-            ["read", "read_vectored", "take+read_to_end"][self.read_api.min(2) as usize],
+            ["read", "read_vectored", "take+read_to_end", "two reads, then read_to_end/read_to_string"][self.read_api.min(3) as usize],
             self.rereads,
             self.faults.read_eintr,
             self.faults.coalesce,
@@ -629,7 +632,40 @@ pub fn caller_with(plan: &BodyPlan, stop_on_block: bool, tweak: impl FnOnce(atto
                 i += 1;
                 let t_in = attosim::now_ns();
                 let handed_before = o.output.len();
+                let mut buf_len_override: Option<usize> = None;
                 let r = match plan.read_api {
+                    3 if i > 2 && !ended => {
+                        // hand over to the std helper for the rest of the body
+                        let mut v = Vec::new();
+                        let r = if plan.via_text_reader {
+                            let mut t = String::new();
+                            let r = resp.read_to_string(&mut t);
+                            v = t.into_bytes();
+                            r
+                        } else {
+                            resp.read_to_end(&mut v)
+                        };
+                        let t_mid = attosim::now_ns();
+                        let got = v.len();
+                        o.output.extend_from_slice(&v);
+                        match r {
+                            Ok(_) => {
+                                // Ok means the helper saw the end of the body: bytes, then a clean end
+                                if got > 0 {
+                                    o.calls.push(Call { what: "read", size: got.max(sz), t_in, t_out: t_mid, res: Ok(got), handed_before });
+                                }
+                                buf_len_override = Some(0);
+                                Ok(0)
+                            }
+                            Err(e) => {
+                                if got > 0 {
+                                    o.calls.push(Call { what: "read", size: got.max(sz), t_in, t_out: t_mid, res: Ok(got), handed_before });
+                                }
+                                buf_len_override = Some(0);
+                                Err(e)
+                            }
+                        }
+                    }
                     1 if sz >= 2 => {
                         let (a, b) = buf[..sz].split_at_mut((sz / 3).max(1));
                         resp.read_vectored(&mut [std::io::IoSliceMut::new(a), std::io::IoSliceMut::new(b)])
@@ -656,12 +692,15 @@ pub fn caller_with(plan: &BodyPlan, stop_on_block: bool, tweak: impl FnOnce(atto
                 let t_out = attosim::now_ns();
                 let res = match &r {
                     Ok(n) => {
-                        o.output.extend_from_slice(&buf[..*n]);
+                        if buf_len_override.is_none() {
+                            o.output.extend_from_slice(&buf[..*n]);
+                        }
                         Ok(*n)
                     }
                     Err(e) => Err(io_kind(e)),
                 };
                 let interrupted = matches!(&r, Err(e) if e.kind() == std::io::ErrorKind::Interrupted);
+                let sz = if buf_len_override.is_some() { sz.max(1) } else { sz };
                 let terminal = match &r {
                     Ok(0) => sz > 0,
                     Ok(_) => false,
